@@ -161,6 +161,7 @@ func (e *streamResultReceiver) reset() {
 
 func (e *streamResultReceiver) fork() resultReceiver {
 	return &streamResultReceiver{
-		stream: e.stream,
+		readRev: e.readRev,
+		stream:  e.stream,
 	}
 }
